@@ -2,7 +2,7 @@ import SciVerif.Tie.C12Sem
 import SciVerif.Props.C12
 import SciVerif.Tie.Pins
 /-! Tie A obligations for C12 on the current source. -/
--- PIN-ALSO: Components.NewMapToTags Components.MapToTags_In Components.MapToTags_Out
+-- PIN-ALSO: Scipipe.Task_writeAuditLogs Scipipe.FileIP_SetAuditInfo Scipipe.FileIP_AuditInfo Scipipe.FileIP_WriteAuditLogToFile Scipipe.FileIP_AddTags Scipipe.FileIP_AddTag Scipipe.FileIP_Tags Components.NewMapToTags Components.MapToTags_In Components.MapToTags_Out
 namespace SciVerif.Tie
 
 /-- every syntactic access to the watched shared fields is under the object's lock, or in a
@@ -11,6 +11,7 @@ theorem generated_discipline : disciplineOk = true := by decide
 
 /-- the only run-phase code that mutates a received IP's record is the listed finding F12 -/
 theorem generated_racy_sites_known : racySites.all (["Components.MapToTags.Run"].contains ·) = true := by decide
+
 
 
 
@@ -45,10 +46,17 @@ theorem pinned_skeletons_c12 :
      ("Components.NewMapToTags", "8aee09683e838d92"),
      ("Components.StreamToSubStream_Run", "3877054697bb0416"),
      ("Scipipe.#decls", "08e57e98702ecd70"),
+     ("Scipipe.FileIP_AddTag", "f8c4aaf3b95c7e7d"),
+     ("Scipipe.FileIP_AddTags", "7f98650d842d4c76"),
+     ("Scipipe.FileIP_AuditInfo", "5adb309a1fd92bb2"),
+     ("Scipipe.FileIP_SetAuditInfo", "9888139e5f6ebe46"),
+     ("Scipipe.FileIP_Tags", "058631429d637201"),
+     ("Scipipe.FileIP_WriteAuditLogToFile", "4600f6f7f2efa41b"),
      ("Scipipe.NewTask", "95298f03c320cb96"),
      ("Scipipe.Process_Run", "40f832903317f455"),
      ("Scipipe.Process_createTasks", "8c856d9ef4492f5d"),
      ("Scipipe.Sink_Run", "2d6c7d95ef617224"),
+     ("Scipipe.Task_writeAuditLogs", "5ee6e36ed2566be6"),
      ("Scipipe.newWorkflowWithoutLogging", "6bb5eb2ae17350a8"),
      ("Scipipe.upstreamProcsForProc", "f9ed2dcd363d8677")] = true := by decide
 -- END PINS
